@@ -705,9 +705,11 @@ import re
 
 REPO_BEHAVIOURS = [
     {"file": "mfront/tests/behaviours/ImplicitNorton.mfront", "name": "ImplicitNorton", "family": "creep", "implicit": True,
-     "hyps": HYPS_ALL, "baked": {"A": 8.e-67, "m": 8.2}, "theta": 0.5, "eps": 1e-16},
+     "hyps": HYPS_ALL, "needs": ["PlaneStress", "AxisymmetricalGeneralisedPlaneStress"],
+     "baked": {"A": 8.e-67, "m": 8.2}, "theta": 0.5, "eps": 1e-16},
     {"file": "mfront/tests/behaviours/ImplicitNorton_LevenbergMarquardt.mfront", "name": "ImplicitNorton_LevenbergMarquardt",
-     "family": "creep", "implicit": True, "hyps": HYPS_ALL, "baked": {"A": 8.e-67, "m": 8.2}, "theta": 0.5, "eps": 1e-11},
+     "family": "creep", "implicit": True, "hyps": HYPS_ALL, "needs": ["PlaneStress", "AxisymmetricalGeneralisedPlaneStress"],
+     "baked": {"A": 8.e-67, "m": 8.2}, "theta": 0.5, "eps": 1e-11},
     {"file": "mfront/tests/behaviours/Norton.mfront", "name": "Norton", "family": "creep", "hyps": HYPS_NOPS, "baked": {},
      "theta": 0.5, "eps": 1e-8},
     {"file": "mfront/tests/behaviours/Plasticity.mfront", "name": "Plasticity", "family": "plastic", "hyps": HYPS_NOPS,
@@ -726,7 +728,10 @@ REPO_BEHAVIOURS = [
 
 def repo_program(repo, entry, hyps):
     """a repository behaviour, unchanged but for the list of modelling hypotheses (compile time)"""
-    src = open(os.path.join(repo, entry["file"])).read()
+    path = os.path.join(repo, entry["file"])
+    if not os.path.exists(path):   # header-only scratch copies used for sensitivity runs have no tests directory
+        path = os.path.join("/repo", entry["file"])
+    src = open(path).read()
     sel = "@ModellingHypotheses {%s};" % ", ".join(hyps)
     if re.search(r"@ModellingHypotheses\s*\{[^}]*\}\s*;", src):
         src = re.sub(r"@ModellingHypotheses\s*\{[^}]*\}\s*;", sel, src, count=1)
@@ -735,3 +740,46 @@ def repo_program(repo, entry, hyps):
     p = {k: v for k, v in entry.items() if k != "file"}
     p.update({"kind": "repo", "hyps": list(hyps), "src": src, "origin": entry["file"]})
     return p
+
+
+# ------------------------------------------------------------------ build (with a mutation hook for sensitivity runs)
+def build(gb, prog):
+    """gb.build(prog), or - when VERIF_GEN_MUTATION='[["regex","replacement"],...]' is set - the same steps with the
+    generated C++ patched between mfront and g++ (emulates a mutated code generator of mfront/src without rebuilding
+    mfront; used only for the kill matrix of mutants/C41.md, C42.md)."""
+    mut = os.environ.get("VERIF_GEN_MUTATION")
+    if not mut:
+        return gb.build(prog)
+    import glob
+    import hashlib
+    import json
+    import verifpy
+    rules = json.loads(mut)
+    key = hashlib.sha1((prog["name"] + "\0" + prog["src"] + "\0" + mut).encode()).hexdigest()[:16]
+    cache = build.__dict__.setdefault("cache", {})
+    if key in cache:
+        return cache[key], ""
+    wd = os.path.join(verifpy.WORK, "mprog", prog["name"] + "_" + key)
+    os.makedirs(wd, exist_ok=True)
+    src = os.path.join(wd, prog["name"] + ".mfront")
+    with open(src, "w") as f:
+        f.write(prog["src"])
+    rc, so, se = verifpy.mfront_generate(src, wd)
+    if rc != 0:
+        return None, "mfront failed: " + (so + se)[-1500:]
+    nsub = 0
+    for path in glob.glob(os.path.join(wd, "include", "TFEL", "Material", "*.hxx")) + glob.glob(os.path.join(wd, "src", "*.cxx")):
+        txt = open(path).read()
+        new = txt
+        for pat, rep in rules:
+            new, k = re.subn(pat, rep, new)
+            nsub += k
+        if new != txt:
+            open(path, "w").write(new)
+    build.__dict__["substitutions"] = build.__dict__.get("substitutions", 0) + nsub
+    path, err = verifpy.compile_generated(wd, prog["name"] + "_" + key)
+    if path is None:
+        return None, "g++ failed: " + err
+    lib = gb.Library(path, prog["name"], prog["hyps"])
+    cache[key] = lib
+    return lib, ""
